@@ -596,7 +596,7 @@ func explore(r *ev.Run, d *domain, stride int, t *totals) {
 // unmerged: every operation sequence up to maxDepth from each starting history, no merging of states.
 // Only the last step of a sequence is judged (its prefix was judged as a shorter sequence); a sequence is
 // not extended past a mismatch.
-func unmerged(r *ev.Run, d *domain, maxDepth, stride int, t *totals) {
+func unmerged(r *ev.Run, d *domain, maxDepth, stride int, t *totals, filter func(depth int, o Op) bool) {
 	type job struct {
 		pre []Op
 		m   *mworld
@@ -631,6 +631,9 @@ func unmerged(r *ev.Run, d *domain, maxDepth, stride int, t *totals) {
 			continue
 		}
 		for _, o := range d.enum(m) {
+			if filter != nil && !filter(1, o) {
+				continue
+			}
 			jobs = append(jobs, job{pre: pre, m: m, o: o})
 		}
 	}
@@ -671,6 +674,9 @@ func unmerged(r *ev.Run, d *domain, maxDepth, stride int, t *totals) {
 			}
 			nseq := append(append(make([]Op, 0, len(seq)+1), seq...), ho)
 			for _, o2 := range d.enum(res.next) {
+				if filter != nil && !filter(depth+1, o2) {
+					continue
+				}
 				rec(nseq, res.next, o2, depth+1)
 			}
 		}
@@ -742,8 +748,22 @@ func Check(r *ev.Run, replay string) {
 		dbg("bfs " + d.name)
 	}
 	for _, d := range doms {
-		unmerged(r, d, udepthOf(d), ustride, &t)
+		unmerged(r, d, udepthOf(d), ustride, &t, nil)
 		dbg("unmerged " + d.name)
+		if (d.name == "map" || d.name == "set") && udepthOf(d) < 3 {
+			// quick: the depth-3 sequences of the shape view, mutation, view (an ordered view of the container,
+			// any operation that is not one, an ordered view again): what a view leaves behind in the
+			// object must not outlive the mutation
+			isView := func(k string) bool {
+				switch k {
+				case "keys", "values", "items", "bkeys", "iter":
+					return true
+				}
+				return false
+			}
+			unmerged(r, d, 3, ustride, &t, func(depth int, o Op) bool { return isView(o.K) == (depth != 2) })
+			dbg("unmerged view-mutate-view " + d.name)
+		}
 	}
 	r.Set("states", t.states)
 	r.Set("transitions", t.transitions)
@@ -758,7 +778,7 @@ func Check(r *ev.Run, replay string) {
 		"set s (+ derived c): add remove delete clear union intersection in [v] len for-range; "+
 		"string over the code points of %q (every substring and every string of <= %d code points reachable by slicing, indexing, reversing, appending one code point): [i] [i:j] [:j] [i:] + in len for-range; "+
 		"byte_slice b = bytes of %q (+ derived c: slice / clone / byte_slice() / +), [i]=\"Z\" with at most %d changed bytes per variable; "+
-		"every transition through the object API, every %d-th also as a program through risor.Eval; plus all un-merged operation sequences of depth <= %d (byte_slice: 2) from up to %d starting histories per type (for lists one with spare slice capacity and a stale slot), every %d-th of them also through risor.Eval. distinct = distinct state keys + distinct (type, operation, operand, destination, callback, outcome class) tuples",
+		"every transition through the object API, every %d-th also as a program through risor.Eval; plus all un-merged operation sequences of depth <= %d (byte_slice: 2) from up to %d starting histories per type (for lists one with spare slice capacity and a stale slot), every %d-th of them also through risor.Eval; quick adds for maps and sets every depth-3 sequence of the shape ordered view, other operation, ordered view. distinct = distinct state keys + distinct (type, operation, operand, destination, callback, outcome class) tuples",
 		listLen, aliasLen, baseText, strLen, baseText, maxZ, stride, udepth, len(doms[0].prefixes), ustride))
 	r.Sample(map[string]any{"domain": "list", "history": []string{"l.append(1)", "c = l[0:1]"}, "op": "c.append(2)", "judged": "result, error-or-not, contents of l and c against the Go slice model"})
 	r.Sample(map[string]any{"domain": "list", "script": scriptFor(doms[0], []Op{{K: "append", T: "l", V: "1"}}, Op{K: "iadd", T: "l", I: -1, V: "1"})})
